@@ -385,6 +385,48 @@ fn c12_string17_reopen() {
     kani::cover!(true, "end of harness reachable");
 }
 
+/// Store half only (no UTF-8 validation of bytes read back, which is what makes
+/// the load of out-of-line non-ASCII strings infeasible): where does a
+/// non-ASCII string of `bytes` go, judged by its BYTE length?
+fn c12_store_placement(text: &str) {
+    let mut s = fresh_arr_storage();
+    let len0 = s.len();
+    let n = text.len();
+    let val = DbValue::String(text.to_string());
+    let idx = ok(val.store_db_value(&mut s));
+    if n <= 15 {
+        assert!(idx.is_value(), "a string of <= 15 BYTES is stored inline");
+        assert!(idx.size() as usize == n, "inline size is the byte length");
+        assert!(s.len() == len0, "inline values allocate nothing");
+    } else {
+        assert!(!idx.is_value(), "a string of >= 16 BYTES is stored out of line whatever its character count");
+        assert!(idx.index() == 1, "first record of an empty storage");
+        assert!(s.len() == len0 + 16 + 8 + n as u64, "exactly one record of 8 + byte length");
+        let raw = ok(s.value_as_bytes(StorageIndex(1)));
+        assert!(raw.len() == 8 + n, "record holds length prefix + bytes");
+        assert!(raw[0] as usize == n && raw[1] == 0, "length prefix is the byte length");
+        let tb = text.as_bytes();
+        assert!(raw[8] == tb[0] && raw[8 + n - 1] == tb[n - 1], "first and last byte stored");
+        std::mem::forget(raw);
+    }
+    std::mem::forget(val);
+    std::mem::forget(s);
+}
+
+//@ id=C12 tier=quick timeout=900 bounds="five concrete non-ASCII strings: 8 chars/16 bytes, 4 chars/16 bytes, 15 chars/16 bytes, 7 chars/14 bytes, 15 chars/17 bytes" desc="inline vs out-of-line placement of a string is decided by its BYTE length: a non-ASCII string of 16+ bytes but fewer than 16 characters is written to a storage record of exactly 8 + byte-length bytes (not dropped, not truncated)" cbmc="--max-field-sensitivity-array-size 200" kernel="DbValue::store_db_value,DbValueIndex::set_value,DbValueIndex::set_index,Storage::insert,String::serialize"
+#[kani::proof]
+#[kani::stub(std::fmt::format, crate::verif_support::fmt_stub)]
+#[kani::stub(crate::DbError::new, crate::verif_support::dberror_new_stub)]
+#[kani::unwind(20)]
+fn c12_string_nonascii_placement_by_byte_length() {
+    c12_store_placement("\u{e9}\u{e9}\u{e9}\u{e9}\u{e9}\u{e9}\u{e9}\u{e9}");
+    c12_store_placement("\u{1f980}\u{1f980}\u{1f980}\u{1f980}");
+    c12_store_placement("aaaaaaaaaaaaaa\u{e9}");
+    c12_store_placement("\u{e9}\u{e9}\u{e9}\u{e9}\u{e9}\u{e9}\u{e9}");
+    c12_store_placement("aaaaaaaaaaaaa\u{e9}\u{e9}");
+    kani::cover!(true, "end of harness reachable");
+}
+
 // Out-of-line NON-ASCII strings are not covered: a 16-byte string with a
 // symbolic valid-UTF-8 tail of 4 bytes, and even two concrete multi-byte
 // strings of 16/17 bytes with reopen, did not finish in 900 s (UTF-8
